@@ -284,6 +284,18 @@ func runC09(ctx *Ctx) error {
 			{{Op: "addfield", F: 1}, {Op: "adddoc", D: 1, Vals: map[int]ixTerm{1: {N: &f7}}}, {Op: "rmfield", F: 1}, {Op: "rmdoc", D: 1}, {Op: "addfield", F: 1}, {Op: "adddoc", D: 2, Vals: map[int]ixTerm{1: {N: &f7}}}},
 			{{Op: "addfield", F: 1}, {Op: "adddoc", D: 2, Vals: map[int]ixTerm{1: {N: &fm5}}}, {Op: "adddoc", D: 2, Vals: map[int]ixTerm{1: {N: &f7}}}},
 		}
+		// a field removed and registered again while documents indexed under the old registration are still there; they are
+		// removed afterwards, next to a later document that uses the same term (two fields, so that the document stays
+		// indexed under the other one)
+		fb := 2
+		corpus = append(corpus,
+			[]ixOp{{Op: "addfield", F: 1}, {Op: "addfield", F: 2}, {Op: "adddoc", D: 1, Vals: map[int]ixTerm{1: {S: &fa}, 2: {S: &fb}}}, {Op: "rmfield", F: 1}, {Op: "addfield", F: 1},
+				{Op: "adddoc", D: 2, Vals: map[int]ixTerm{1: {S: &fa}, 2: {S: &fb}}}, {Op: "counts", F: 1}, {Op: "rmdoc", D: 1}, {Op: "counts", F: 1}, {Op: "counts", F: 2}, {Op: "rmdoc", D: 2}},
+			[]ixOp{{Op: "addfield", F: 1}, {Op: "adddoc", D: 1, Vals: map[int]ixTerm{1: {N: &f7}}}, {Op: "rmfield", F: 1}, {Op: "addfield", F: 1}, {Op: "rmdoc", D: 1},
+				{Op: "adddoc", D: 3, Vals: map[int]ixTerm{1: {N: &f7}}}, {Op: "counts", F: 1}},
+			// a count query between two additions of the same term, then a removal
+			[]ixOp{{Op: "addfield", F: 1}, {Op: "adddoc", D: 1, Vals: map[int]ixTerm{1: {S: &fa}}}, {Op: "counts", F: 1}, {Op: "adddoc", D: 2, Vals: map[int]ixTerm{1: {S: &fa}}},
+				{Op: "counts", F: 1}, {Op: "rmdoc", D: 1}, {Op: "counts", F: 1}, {Op: "adddoc", D: 3, Vals: map[int]ixTerm{1: {S: &fa}}}, {Op: "counts", F: 1}})
 		cases = append(cases, corpus...)
 		n := ctx.Pick(80, 800)
 		for i := 0; i < n; i++ {
